@@ -25,6 +25,9 @@ pub struct RecBuilder {
     pub fdt_count: Cell<u32>,
     pub md5: bool,
     pub cur: Rc<Cell<usize>>,
+    /// storage fault injection: the FIRST `open()` of every TOI fails (storage temporarily unavailable)
+    pub fail_first_open: bool,
+    pub failed: Rc<RefCell<std::collections::BTreeSet<u128>>>,
 }
 
 #[derive(Debug)]
@@ -32,6 +35,8 @@ struct RecWriter {
     rec: Rc<Rec>,
     md5: bool,
     cur: Rc<Cell<usize>>,
+    fail_first_open: bool,
+    failed: Rc<RefCell<std::collections::BTreeSet<u128>>>,
 }
 
 impl ObjectWriterBuilder for RecBuilder {
@@ -44,7 +49,7 @@ impl ObjectWriterBuilder for RecBuilder {
             done_at: Cell::new(None),
         });
         self.recs.borrow_mut().push(rec.clone());
-        ObjectWriterBuilderResult::StoreObject(Box::new(RecWriter { rec, md5: self.md5, cur: self.cur.clone() }))
+        ObjectWriterBuilderResult::StoreObject(Box::new(RecWriter { rec, md5: self.md5, cur: self.cur.clone(), fail_first_open: self.fail_first_open, failed: self.failed.clone() }))
     }
     fn update_cache_control(&self, _e: &UDPEndpoint, _tsi: &u64, _toi: &u128, _meta: &ObjectMetadata, _now: SystemTime) {}
     fn fdt_received(
@@ -64,6 +69,11 @@ impl ObjectWriterBuilder for RecBuilder {
 
 impl ObjectWriter for RecWriter {
     fn open(&self, _now: SystemTime) -> flute::error::Result<()> {
+        if self.fail_first_open && self.failed.borrow_mut().insert(self.rec.toi) {
+            // 'O' = an open() that answered Err
+            self.rec.calls.borrow_mut().push('O');
+            return Err(flute::error::FluteError::new("storage temporarily unavailable (injected)"));
+        }
         self.rec.calls.borrow_mut().push('o');
         Ok(())
     }
@@ -111,9 +121,16 @@ pub fn rx_config(sess: &Session) -> receiver::Config {
 }
 
 /// feed `sel` (indices into the stream, in feeding order) into a fresh receiver
-pub fn run_rx(sess: &Session, sel: &[usize]) -> RxResult {
+pub fn run_rx(sess: &Session, sel: &[usize], fail_first_open: bool) -> RxResult {
     let cur = Rc::new(Cell::new(0usize));
-    let builder = Rc::new(RecBuilder { recs: RefCell::new(Vec::new()), fdt_count: Cell::new(0), md5: sess.sp.wmd5, cur: cur.clone() });
+    let builder = Rc::new(RecBuilder {
+        recs: RefCell::new(Vec::new()),
+        fdt_count: Cell::new(0),
+        md5: sess.sp.wmd5,
+        cur: cur.clone(),
+        fail_first_open,
+        failed: Rc::new(RefCell::new(Default::default())),
+    });
     let cfg = rx_config(sess);
     let ep = endpoint();
     let mut push_err = 0u32;
